@@ -182,7 +182,7 @@ func newE2(params json.RawMessage) *e2Machine {
 			}
 		}
 	}
-	if p.Prefix == "joined" {
+	if p.Prefix == "joined" || p.Prefix == "long" {
 		for _, c := range m.cls {
 			for _, k := range p.Keys {
 				if v := m.Apply(pt.Action{Op: "open", R: c.idx, T: k, K: "soc"}); v != nil {
@@ -200,6 +200,33 @@ func newE2(params json.RawMessage) *e2Machine {
 				continue
 			}
 			if v := m.Apply(pt.Action{Op: "sync", R: c.idx}); v != nil {
+				m.fatal = v
+				return m
+			}
+		}
+	}
+	if p.Prefix == "long" {
+		// every client has joined; client 0 then pushes eight operations one by one and four more in one request: the log
+		// passes its tenth entry while the other clients stay at an old checkpoint (they were offline)
+		var pre []pt.Action
+		k := p.Keys[0]
+		one := func() pt.Action {
+			switch m.cls[0].typ {
+			case "map":
+				return pt.Action{Op: "put", R: 0, K: "a", V: "p", T: k + "|"}
+			case "list":
+				return pt.Action{Op: "ins1", R: 0, P: 0, V: "p", T: k + "|"}
+			case "doc":
+				return pt.Action{Op: "dput", R: 0, K: "a", V: "p", T: k + "|"}
+			}
+			return pt.Action{Op: "inc", R: 0, P: 1, T: k + "|"}
+		}
+		for i := 0; i < 8; i++ {
+			pre = append(pre, one(), pt.Action{Op: "sync", R: 0})
+		}
+		pre = append(pre, one(), one(), one(), one(), pt.Action{Op: "sync", R: 0})
+		for _, a := range pre {
+			if v := m.Apply(a); v != nil {
 				m.fatal = v
 				return m
 			}
